@@ -253,4 +253,28 @@ theorem unit_tags :
       (lookupFun (lvl x "GPTH")).bind unitOf == some "gas_surface_volume") = true := by
   unfold lookupFun; rw [lookupK_eq]; decide +kernel
 
+
+/-- the measure of the time integral of a rate measure -/
+def integralUnit : String → Option String
+  | "liquid_surface_rate" => some "liquid_surface_volume"
+  | "gas_surface_rate" => some "gas_surface_volume"
+  | "rate" => some "volume"
+  | "mass_rate" => some "mass"
+  | "energy_rate" => some "energy"
+  | _ => none
+
+def unitIntegrates (look : Nat → Option E) (k : Nat) (e : E) : Bool :=
+  match look (rateTwinK k) with
+  | some r => (unitOf r).bind integralUnit == unitOf e
+  | none => false
+
+/-- Deck units of totals: for every atom-free accumulating W/G/F key the unit tag is the time
+integral of the unit tag of its rate twin (surface rate ↦ surface volume, reservoir rate ↦
+volume, mass rate ↦ mass). -/
+theorem totals_units_integrate :
+    Gen.funsK.all (fun p =>
+      !(isWGFK p.1 && stateIsTotalK p.1 && noAtom p.2) || unitIntegrates lookupK p.1 p.2 ||
+        memK totalExceptionsK p.1) = true := by
+  rw [lookupK_eq, ← allR_eq]; decide +kernel
+
 end OpmVerif.SumFuns.Table
